@@ -1310,9 +1310,9 @@ Proof. unfold handles. apply flat_map_app. Qed.
 Lemma upd_app_last {A} (l : list A) x y : upd (l ++ [x]) (length l) y = l ++ [y].
 Proof. induction l as [|h t IH]; simpl; [reflexivity|]. rewrite IH. reflexivity. Qed.
 
-Lemma mll_release_inv m pend i h :
+Lemma mll_release_inv v m pend i h :
   MInv m pend -> nth i (files m) None = Some h ->
-  MInv (mll_release m i h) (remove_all (i + 1 + foffset m) pend).
+  MInv (mll_release v m i h) (remove_all (i + 1 + foffset m) pend).
 Proof.
   intros [C Z H P] Hn. destruct (handles_upd_none _ _ _ Hn) as [A B]. unfold mll_release.
   destruct (Nat.eqb_spec (n_open m - 1) 0) as [E|E].
@@ -1366,7 +1366,7 @@ Proof.
     + (* late failure, repaired: the entry is released as cg_close would *)
       set (sz := if Nat.eqb (fsize m) 0 then 1 else if Nat.eqb (length (files m)) (fsize m) then 2 * fsize m else fsize m).
       pose proof (Succ sz) as S1.
-      pose proof (mll_release_inv _ _ (length (files m)) (nexth m) S1) as R. simpl in R.
+      pose proof (mll_release_inv MCur _ _ (length (files m)) (nexth m) S1) as R. simpl in R.
       rewrite app_nth2, Nat.sub_diag in R by lia. specialize (R eq_refl).
       eapply MInv_weaken; [|exact R].
       intros x Hx.
@@ -1389,7 +1389,7 @@ Proof.
     + destruct (nth (fn - foffset m - 1) (files m) None) as [h|] eqn:En; simpl.
       * apply orb_false_elim in Bad. destruct Bad as [B1 B2]. apply Nat.leb_gt in B1. apply Nat.ltb_ge in B2.
         destruct ok; simpl; auto.
-        pose proof (mll_release_inv _ _ _ _ HI En) as R.
+        pose proof (mll_release_inv MCur _ _ _ _ HI En) as R.
         replace (fn - foffset m - 1 + 1 + foffset m) with fn in R by lia. exact R.
       * apply Same. intros i h Hn Heq. destruct (NoLive i h Hn Heq). congruence.
 Qed.
